@@ -78,6 +78,67 @@ def cq_pairs(l):
     return cq_list([cq_pair(cq_str(k), cq_str(v)) for k, v in l])
 
 
+# special float values of the "special values" family: token -> (text sent to the driver, Coq xnum term).
+# inf / -inf / nan are modelled (xpinf / xninf / xnan).  -0.0, subnormals and huge finite values are FINITE values
+# whose addition is not exact: they stand in the model for a quarter-exact number that compares with every bound
+# (bounds are integers in quarter units) exactly as they do, and - except -0.0, which adds exactly nothing - are
+# generated only where the sum is already +-inf / NaN, so that the expected sum does not depend on rounding.
+SPECIAL_VALUES = {
+    "inf": ("inf", "xpinf"), "-inf": ("-inf", "xninf"), "nan": ("NaN", "xnan"),
+    "-0": ("-0.0", "(xfin 0%Z)"), "sub": ("5e-324", "(xfin 1%Z)"), "-sub": ("-5e-324", "(xfin 0%Z)"),
+    "huge": ("1e300", "(xfin (2 ^ 200)%Z)"), "-huge": ("-1e300", "(xfin (- 2 ^ 200)%Z)"),
+}
+WILD = ("sub", "-sub", "huge", "-huge")
+
+
+def val_txt(v):
+    return SPECIAL_VALUES[v][0] if isinstance(v, str) else fq(v)
+
+
+def val_coq(v):
+    return SPECIAL_VALUES[v][1] if isinstance(v, str) else "(xfin %s)" % cq_Z(v)
+
+
+def xclass_add(a, b):
+    """IEEE class of a + b for classes in {'f','inf','-inf','nan'}"""
+    if "nan" in (a, b) or {a, b} == {"inf", "-inf"}:
+        return "nan"
+    if "inf" in (a, b):
+        return "inf"
+    if "-inf" in (a, b):
+        return "-inf"
+    return "f"
+
+
+def val_class(v):
+    return v if v in ("inf", "-inf", "nan") else "f"
+
+
+def special_ok(c):
+    """wild finite values (subnormal, huge) only where the running sum is already +-inf / NaN; -0.0 never SET on a gauge"""
+    keys = c["keys"]
+    st = {}
+    for o in c.get("ops", []):
+        if o[0] not in ("S", "P", "M", "H") or o[1] >= len(keys):
+            continue
+        kind, v = keys[o[1]][0], o[2]
+        if (o[0] == "H") != (kind == "h") or (o[0] != "H" and kind != "g"):
+            continue                                  # skipped on both sides
+        cur = st.get(o[1], "f")
+        if v in WILD and cur == "f":
+            return False
+        if o[0] == "S":
+            if v == "-0" or v in WILD:
+                return False
+            st[o[1]] = val_class(v)
+        else:
+            cls = val_class(v)
+            if o[0] == "M":
+                cls = {"inf": "-inf", "-inf": "inf"}.get(cls, cls)
+            st[o[1]] = xclass_add(cur, cls)
+    return True
+
+
 def fq(q):
     """quarter units -> decimal text of the double q/4 (exact)"""
     return repr(q / 4.0)
@@ -95,8 +156,10 @@ def canon(bits):
     """the same canonical form as C07/Model.v [canon]: the quarter-unit integer when the double is one
     (and not -0, |q| < 2^52), else the bit pattern"""
     x = float_of(bits)
-    if x != x or x in (float("inf"), float("-inf")):
-        return "VB %s" % cq_N(bits)
+    if x != x:
+        return "VNaN"
+    if x in (float("inf"), float("-inf")):
+        return "VPInf" if x > 0 else "VNInf"
     if x == 0:
         return "VZ 0%Z" if bits == 0 else "VB %s" % cq_N(bits)
     if abs(x) < 2.0 ** 60:
@@ -122,6 +185,8 @@ def fclass(k):
 
 
 def py_wf(c):
+    if not special_ok(c):
+        return False
     seen = []
     for kind, name, labels in c["keys"]:
         if not name:
@@ -149,14 +214,16 @@ class C07(Prop):
     pid = "C07"
     pkg = "hprom"
     binname = "c07"
-    quick_cases = 1500
+    quick_cases = 1200
     thorough_cases = 8000
     shard = 60
     rule = ("random builder configurations (0-3 global labels overlapping the keys' label names, unit suffix on/off, summary mode or ascending "
             "global buckets, 0-2 per-metric overrides Full/Prefix/Suffix, quantile sets) x key tables of 1..8 keys (counter / gauge / raw-bits gauge / "
             "histogram; names and label names from small alphabets with sanitisation collisions, 0..4 labels, label values with quotes, backslashes, "
             "newlines) satisfying the precondition x histories of <= 60 operations (Register, Inc/Abs incl. values wrapping 2^64, Set/Inc/Dec of "
-            "quarter-exact doubles, raw 64-bit doubles set on raw gauges, Record of samples on and around the bucket bounds, Describe of the same "
+            "quarter-exact doubles, raw 64-bit doubles set on raw gauges, Record of samples on and around the bucket bounds; in one case out of four the "
+            "special-values family: +inf, -inf, NaN as histogram samples and as gauge set/increment/decrement operands, -0.0 samples and increments, and - only where the "
+            "running sum is already +-inf or NaN - subnormal (+-5e-324) and huge (+-1e300) operands, in summary and bucketed mode, Describe of the same "
             "name several times and under several kinds and unsanitised spellings, run_upkeep and render interleaved and repeated; every history ends "
             "with two renders). A case is non-trivial if at least one rendering has a sample; distinct = distinct (case, output). Stress engines: "
             "(1) 4 recording threads x 3 histogram keys + counters || one render/run_upkeep loop, histogram and summary mode, final counts judged (counters exact, no excess, never decreasing, per-key shortfall <= recorders x drains); "
@@ -173,7 +240,7 @@ class C07(Prop):
     level_text = ("Theorems (Coq, all histories of any length over any key table satisfying wf_names, all configurations): every rendering of the model "
                   "equals what the history before it specifies (C07_model_meets_spec): counters are the fold of fetch_add mod 2^64 / fetch_max "
                   "(closed forms: sum of increments mod 2^64, maximum of absolutes), gauges the fold of their operations, each histogram key shows "
-                  "_count = number of Record operations made under it, +Inf bucket = _count, bucket(b) = number of samples <= b, _sum = their sum; the "
+                  "_count = number of Record operations made under it, +Inf bucket = _count, bucket(b) = number of samples <= b, _sum = their sum, also when +inf, -inf or NaN samples are among them (count exact; +inf in no finite bucket, -inf in every bucket, NaN in none; sum +-inf / NaN as IEEE addition gives); the "
                   "accounting invariant total_recorded = count(distribution) + |pending| holds after every operation (C07_every_sample_once) for every "
                   "interleaving of Record / Render / Upkeep; labels are the global ones overridden by the key's (C07_labels_global_overridden_by_key); "
                   "HELP is the first description of the sanitised name; rendering twice in a row gives the same rendering. The sequential model is tied to /repo by "
@@ -182,19 +249,23 @@ class C07(Prop):
                   "key (C06) and an AtomicBucket is its bag of samples (C05); the concurrent clause is checked by three free-running stress engines only (final totals under concurrent recording, which inherits "
                   "C05's open finding: a sample pushed into a just-detached block is lost - accepted as that finding only up to recorders x drains per key, "
                   "a larger shortfall or any excess is a violation; and visibility of completed records to renders concurrent with upkeep/render, where nothing is excused; and counter/gauge handle updates from 4-8 threads released together, read back through render(), where only linearisable outcomes pass). "
-                  "Render/Upkeep are atomic steps of the SEQUENTIAL model; the interleaving model (ConcModel.v) splits them into the code's steps with the lock explicit and proves the clause for every schedule, ASSUMING that each single step is atomic: get_or_create (C06), each handle RMW (C04), push and clear_with (C05, outside its open late-claim class). On the code clause (a) therefore holds only up to the late-claim losses, bounded as engine 1 bounds them (recorders x drains per key). The interleaving model is tied to the code by the stress engines only (the exporter has no yield points for schedule replay), like C19's Conc model and C11's Wake.v; numbers in it are exact integers; describe/labels/rendering text are not in it. Doubles are restricted to quarter-exact values below 2^50 so that "
-                  "f64 addition is integer addition (C07_sum_once states the accounting for any commutative monoid; rounding is not modelled); the "
+                  "Render/Upkeep are atomic steps of the SEQUENTIAL model; the interleaving model (ConcModel.v) splits them into the code's steps with the lock explicit and proves the clause for every schedule, ASSUMING that each single step is atomic: get_or_create (C06), each handle RMW (C04), push and clear_with (C05, outside its open late-claim class). On the code clause (a) therefore holds only up to the late-claim losses, bounded as engine 1 bounds them (recorders x drains per key). The interleaving model is tied to the code by the stress engines only (the exporter has no yield points for schedule replay), like C19's Conc model and C11's Wake.v; numbers in it are exact integers; describe/labels/rendering text are not in it. Finite doubles are restricted to quarter-exact values below 2^50 so that "
+                  "f64 addition is integer addition; +inf, -inf and NaN are in the model: a number is its exact finite part plus how many +inf / -inf / NaN terms went into it, "
+                  "shown as the double that denotes (C07_sum_once_with_special_values: a commutative monoid whose classes add as IEEE doubles do; C07_sum_once states the accounting "
+                  "for any commutative monoid; rounding is not modelled; -0.0, subnormal and huge operands are exercised only where they cannot change the expected sum); the "
                   "Display/parse round trip is an oracle tested on every rendered value and on a stream of arbitrary bit patterns set on gauges. HashMap order: "
                   "renderings are compared as multisets of sample records, each carrying its family header (family grouping itself is C08's). Summary "
                   "quantile values are not compared. Idle timeout is off (C12). The model renders distributions by looking up each registered histogram key's "
                   "entry rather than by walking the map; that every entry of the map belongs to a registered histogram key, and entries are pairwise different, is proved "
                   "(C07_distributions_belong_to_registered_keys), the permutation between the two walks is not stated as a theorem.")
-    assumptions = ["doubles in generated histories are multiples of 1/4 below 2^50 in magnitude (f64 addition exact); raw gauge bit patterns are arbitrary non-NaN or the canonical NaN",
+    assumptions = ["finite doubles in generated histories are multiples of 1/4 below 2^50 in magnitude (f64 addition exact); +inf, -inf and NaN are modelled (inf + -inf = NaN, NaN absorbs, inf + finite = inf); -0.0 operands add exactly nothing and are never SET on a modelled gauge; subnormal and huge finite operands occur only where the running sum is already +-inf / NaN and stand in the model for a quarter-exact number that compares with every (integer quarter-unit) bound as they do; raw gauge bit patterns are arbitrary non-NaN or the canonical NaN",
                    "fewer than 2^64 samples; idle timeout disabled; sequential histories (concurrency: stress engines only)",
                    "Render and Upkeep are single atomic steps of the model: taking the samples out of a bucket and folding them into its distribution entry is atomic with respect to other renders/upkeeps because drain_histograms_to_distributions does both under the distributions write lock (recorder.rs); this code fact is not proved, it is tested by the visibility stress engine",
                    "HashMap iteration order is unspecified: renderings are compared as multisets of sample records"]
     trusted_extra = ["the driver's strict exposition-text reader (harness/hprom/src/bin/c07.rs parse_render) and Rust's str::parse::<f64>",
                      "python decoding of the driver's output and of f64 bit patterns (struct)"]
+
+    special_counts = {}
 
     # ------------------------------------------------------------------ generator
     def gen_cfg(self, rng):
@@ -226,6 +297,8 @@ class C07(Prop):
 
     def gen_ops(self, rng, c):
         keys = c["keys"]
+        special = rng.chance(1, 4)        # the special-values family: +-inf, NaN, -0.0, subnormal, huge operands
+        cls = {}                          # running class of each gauge value / histogram sum
         bounds = list(c["buckets"] or []) + [b for o in c["overrides"] for b in o[2]] + [4]
         ops = []
         n = rng.range(1, 56)
@@ -251,7 +324,17 @@ class C07(Prop):
                     ops.append([rng.weighted([(3, "I"), (1, "A")]), i, v])
                 elif kind == "g":
                     v = rng.weighted([(6, rng.range(-40, 40)), (1, 0), (1, (1 << 44) - rng.below(3)), (1, -(1 << 43))])
-                    ops.append([rng.pick("SPM"), i, v])
+                    o = rng.pick("SPM")
+                    if special and keys[i][0] == "g" and rng.chance(2, 5):
+                        v = rng.weighted([(3, "inf"), (2, "-inf"), (2, "nan"), (1, "-0"), (1, rng.pick(WILD))])
+                        if (v in WILD and cls.get(i, "f") == "f") or (o == "S" and (v == "-0" or v in WILD)):
+                            v = "inf"
+                    if keys[i][0] == "g":
+                        k2 = val_class(v)
+                        if o == "M":
+                            k2 = {"inf": "-inf", "-inf": "inf"}.get(k2, k2)
+                        cls[i] = k2 if o == "S" else xclass_add(cls.get(i, "f"), k2)
+                    ops.append([o, i, v])
                 elif kind == "r":
                     b = rng.pick(SPECIAL_BITS) if rng.chance(1, 3) else rng.next()
                     if (b >> 52) & 0x7ff == 0x7ff and b & ((1 << 52) - 1):
@@ -260,6 +343,12 @@ class C07(Prop):
                 else:
                     b = rng.pick(bounds)
                     v = rng.weighted([(4, b + rng.range(-1, 1)), (3, rng.range(-8, 60)), (1, (1 << 40) + rng.below(4)), (1, 0)])
+                    if special and keys[i][0] == "h" and rng.chance(1, 3):
+                        v = rng.weighted([(4, "inf"), (2, "-inf"), (2, "nan"), (1, "-0"), (2, rng.pick(WILD))])
+                        if v in WILD and cls.get(i, "f") == "f":
+                            v = "inf"
+                    if keys[i][0] == "h":
+                        cls[i] = xclass_add(cls.get(i, "f"), val_class(v))
                     ops.append(["H", i, v])
         ops += [["N"], ["N"]]
         return ops
@@ -278,6 +367,10 @@ class C07(Prop):
                 if not keys:
                     continue
             c["ops"] = self.gen_ops(rng, c)
+            assert special_ok(c)
+            for o in c["ops"]:
+                if o[0] in ("S", "P", "M", "H") and isinstance(o[2], str):
+                    self.special_counts[o[0] + " " + o[2]] = self.special_counts.get(o[0] + " " + o[2], 0) + 1
             cases.append(c)
         return cases
 
@@ -305,7 +398,7 @@ class C07(Prop):
             elif o[0] in ("I", "A"):
                 t.append("%s%d:%d" % (o[0], o[1], o[2]))
             elif o[0] in ("S", "P", "M", "H"):
-                t.append("%s%d:%s" % (o[0], o[1], fq(o[2])))
+                t.append("%s%d:%s" % (o[0], o[1], val_txt(o[2])))
             elif o[0] == "X":
                 t.append("X%d:%016x" % (o[1], o[2]))
             else:
@@ -352,7 +445,7 @@ class C07(Prop):
             elif t in ("I", "A"):
                 ops.append("%s %s %s" % ("Inc" if t == "I" else "Abs", cq_N(o[1]), cq_N(o[2])))
             elif t in ("S", "P", "M", "H"):
-                ops.append("%s %s %s" % ({"S": "GSet", "P": "GInc", "M": "GDec", "H": "Rec"}[t], cq_N(o[1]), cq_Z(o[2])))
+                ops.append("%s %s %s" % ({"S": "GSet", "P": "GInc", "M": "GDec", "H": "Rec"}[t], cq_N(o[1]), val_coq(o[2])))
             elif t == "X":
                 ops.append("GBits %s %s" % (cq_N(o[1]), cq_N(o[2])))
             else:
@@ -430,6 +523,7 @@ class C07(Prop):
     # ------------------------------------------------------------------ stress engine
     def extra_checks(self, ctx):
         quick = ctx["tier"] == "quick"
+        ctx["coverage"]["special_value_operands"] = dict(sorted(self.special_counts.items()))
         # >= 10^5 samples per round against a few tens of drains (spaced by a pause), so that the bound below discriminates
         per, rounds, gap = (50000, 3, 300) if quick else (150000, 6, 1000)
         threads = 4
